@@ -21,7 +21,7 @@ PROPERTY = 'C17'
 LEVEL = 'fault_enumeration'
 RULE = ('fault enumeration on write(): (i) for generated valid scores, every node of the tree in turn is made to fail its '
         'check (a required child removed, a required attribute removed, the value of a simple-typed node withheld), '
-        'write() is called for every prior state of the destination (absent, empty, previous content) and the bytes are '
+        'write() is called (with intelligent_choice off and on) for every prior state of the destination (absent, empty, previous content) and the bytes are '
         'compared; (ii) source-free fault injection: a private exception is raised at every library LINE event executed '
         'inside write() before the document text exists; (iii) successful writes: bytes == declaration + to_string() in '
         'UTF-8, with non-ASCII and non-BMP text and with every kind of line boundary inside text (LF, CR, CR LF, U+0085, U+2028, U+2029); (iv) configurations: the same import / build / write / parse scenario in '
@@ -199,7 +199,7 @@ def run_nodes(shard, tier, seed):
                         old = n.value_
                         n._value = None       # withhold the value (the only way to reach the 'needs a value' check)
                         undo = lambda n=n, old=old: setattr(n, '_value', old)
-                    for prior in ('absent', 'empty', 'previous'):
+                    for prior, ic in [(p_, f_) for p_ in ('absent', 'empty', 'previous') for f_ in (False, True)]:
                         if prior == 'absent':
                             if os.path.exists(path):
                                 os.unlink(path)
@@ -212,7 +212,7 @@ def run_nodes(shard, tier, seed):
                             open(path, 'wb').write(before)
                         evals += 1
                         del opened[:]
-                        r = lib.call(score.write, path)
+                        r = lib.call(score.write, path, True) if ic else lib.call(score.write, path)
                         opened_w = [o for o in opened if any(ch in str(o[0]) for ch in 'wax+')]
                         after = open(path, 'rb').read() if os.path.exists(path) else None
                         if r[0] == 'exc':
@@ -220,11 +220,12 @@ def run_nodes(shard, tier, seed):
                             c['failing_writes'] += 1
                             if after != before:
                                 viol.append({'sig': {'kind': 'failed-write-changed-destination', 'prior': prior,
-                                                     'failure': kind, 'exc': type(r[1]).__name__},
+                                                     'failure': kind, 'exc': type(r[1]).__name__, 'intelligent_choice': 'on' if ic else 'off'},
                                              'case': {'score': docs.to_text(el)[:3000], 'node': n.name, 'failure': kind},
                                              'detail': {'after': (after or b'')[:80].decode('utf-8', 'replace')}})
                             if opened_w:
-                                viol.append({'sig': {'kind': 'destination-opened-for-writing-by-a-failing-write', 'prior': prior},
+                                viol.append({'sig': {'kind': 'destination-opened-for-writing-by-a-failing-write', 'prior': prior,
+                                                     'intelligent_choice': 'on' if ic else 'off'},
                                              'case': {'score': docs.to_text(el)[:3000], 'node': n.name, 'failure': kind},
                                              'detail': {'open_events': [o[0] for o in opened_w]}})
                         else:
